@@ -483,6 +483,7 @@ func runC08(c *Ctx) {
 	decodeFromWholeStream(c, "R8")
 	extensionKeySplit(c, "R4")
 	smudgeDecidesFirst(c, "R6")
+	copyHelperReadsToEnd(c, "R1")
 	c08SmudgePassesAllNonPointers(c)
 	c08BlankLines(c)
 
